@@ -306,6 +306,128 @@ def rule_r3(chk, p, t):
             r.ok(csp.qualname, "transit = (jd2 - jd1) * 86400 s, rejected iff >= one period", csp.loc())
 
     r.guard(csp.qualname, two)
+    dfs = p.lookup_method(cls, "_determineFinalState")
+
+    def final_position():
+        # the second Lambert position is the inversion of a radar observation of the current step (or the mean of
+        # the inversions of exactly the observations that were inverted) - never scaled by a count of other things
+        fp = single_defs(m.node).get("final_position")
+        require(fp is not None and isinstance(fp, ast.Call) and unparse(fp.func) == "self._determineFinalState" and [unparse(a) for a in fp.args] == [m.params[1]], f"final_position is not self._determineFinalState({m.params[1]})", m.node)
+        fn = dfs.node
+        param = dfs.params[1]
+        from rsa.util import parents_map
+
+        par = parents_map(fn)
+        elem = set()  # names bound to one element of the parameter
+        for n in ast.walk(fn):
+            if isinstance(n, (ast.For, ast.comprehension)) and isinstance(n.target, ast.Name):
+                it = n.iter
+                while isinstance(it, ast.Call) and call_name(it) in ("list", "tuple", "iter", "reversed", "sorted", "filter") and it.args:
+                    it = it.args[-1]
+                if isinstance(it, ast.Name) and it.id == param:
+                    elem.add(n.target.id)
+
+        def one_pos(e):
+            if isinstance(e, ast.Call) and call_name(e) == "radarObs2eciPosition" and len(e.args) == 1:
+                a = e.args[0]
+                if isinstance(a, ast.Name) and a.id in elem:
+                    return True
+                if isinstance(a, ast.Subscript) and isinstance(a.value, ast.Name) and a.value.id == param:
+                    return True
+            return False
+
+        assigns = {}
+        for n in walk_no_nested(fn):
+            if isinstance(n, ast.Assign) and len(n.targets) == 1 and isinstance(n.targets[0], ast.Name):
+                assigns.setdefault(n.targets[0].id, []).append((n, n.value))
+            elif isinstance(n, ast.AugAssign) and isinstance(n.target, ast.Name):
+                assigns.setdefault(n.target.id, []).append((n, n))
+            elif isinstance(n, ast.NamedExpr):
+                assigns.setdefault(n.target.id, []).append((n, n.value))
+
+        def pos_name(nm):
+            ds = assigns.get(nm, [])
+            return bool(ds) and all(not isinstance(v, ast.AugAssign) and one_pos(v) for _, v in ds)
+
+        def conditional(stmt):
+            # is the statement under an `if` (or a filtering comprehension) inside the loop over the parameter?
+            node = par.get(stmt)
+            while node is not None and node is not fn:
+                if isinstance(node, (ast.If, ast.IfExp)) and not any(stmt is x for x in ast.walk(node.test)):
+                    t = node.test
+                    if not (isinstance(t, ast.Compare) and len(t.ops) == 1 and isinstance(t.ops[0], (ast.Is, ast.IsNot)) and isinstance(t.left, ast.Name) and t.left.id in assigns):
+                        return node
+                node = par.get(node)
+            return None
+
+        def accum(nm):
+            """accumulation statements of a running sum of one-observation positions, or None"""
+            out = []
+            for st, v in assigns.get(nm, []):
+                if isinstance(v, ast.AugAssign):
+                    if isinstance(v.op, ast.Add) and (one_pos(v.value) or (isinstance(v.value, ast.Name) and pos_name(v.value.id))):
+                        out.append(st)
+                        continue
+                    return None
+                if isinstance(v, ast.Constant) or (isinstance(v, ast.Call) and call_name(v) in ("zeros", "zeros_like")):
+                    continue
+                terms = []
+                w = v
+                if isinstance(w, ast.IfExp):
+                    cands = [w.body, w.orelse]
+                else:
+                    cands = [w]
+                ok = True
+                for c in cands:
+                    if one_pos(c) or (isinstance(c, ast.Name) and pos_name(c.id)):
+                        continue
+                    if isinstance(c, ast.BinOp) and isinstance(c.op, ast.Add) and {True} == {(isinstance(x, ast.Name) and (x.id == nm or pos_name(x.id))) or one_pos(x) for x in (c.left, c.right)}:
+                        continue
+                    ok = False
+                if not ok:
+                    return None
+                out.append(st)
+            return out or None
+
+        rets = [n for n in walk_no_nested(fn) if isinstance(n, ast.Return)]
+        require(rets, "_determineFinalState returns nothing", fn)
+        n_pos = 0
+        for rt in rets:
+            v = rt.value
+            if v is None or (isinstance(v, ast.Constant) and v.value is None):
+                continue
+            if one_pos(v) or (isinstance(v, ast.Name) and pos_name(v.id)):
+                n_pos += 1
+                continue
+            if isinstance(v, ast.BinOp) and isinstance(v.op, ast.Div) and isinstance(v.left, ast.Name):
+                acc = accum(v.left.id)
+                if acc is None:
+                    raise Undecided(f"`{unparse(v)}`: the numerator is not a running sum of inverted observations", rt)
+                conds = [conditional(s) for s in acc]
+                den = v.right
+                if isinstance(den, ast.Call) and call_name(den) == "len" and len(den.args) == 1 and isinstance(den.args[0], ast.Name) and den.args[0].id == param:
+                    if any(c is not None for c in conds):
+                        c = next(c for c in conds if c is not None)
+                        r.violation(dfs.qualname + ":final-position", "mean-over-wrong-count", f"`{unparse(v)}`: the sum runs over the observations that satisfy `{unparse(c.test)}` only, the divisor counts every element of `{param}` - with an angles-only observation in the list the final position is scaled toward the Earth's centre and the orbit determined from two exact radar observations is not the observed orbit", dfs.loc(rt))
+                        return
+                    n_pos += 1
+                    continue
+                if isinstance(den, ast.Name):
+                    incs = [st for st, vv in assigns.get(den.id, []) if isinstance(vv, ast.AugAssign) and isinstance(vv.op, ast.Add) and isinstance(vv.value, ast.Constant) and vv.value.value == 1]
+                    others = [st for st, vv in assigns.get(den.id, []) if st not in incs and not (isinstance(vv, ast.Constant) and vv.value == 0)]
+                    if incs and not others and {id(par.get(s)) for s in incs} == {id(par.get(s)) for s in acc}:
+                        n_pos += 1
+                        continue
+                    if incs and not others and any(c is not None for c in conds) and all(conditional(s) is None for s in incs):
+                        c = next(c for c in conds if c is not None)
+                        r.violation(dfs.qualname + ":final-position", "mean-over-wrong-count", f"`{unparse(v)}`: the sum runs over the observations that satisfy `{unparse(c.test)}` only, the divisor `{den.id}` counts every iteration - with an angles-only observation in the list the final position is scaled toward the Earth's centre", dfs.loc(rt))
+                        return
+                raise Undecided(f"`{unparse(v)}`: cannot relate the divisor to the number of summed positions", rt)
+            raise Undecided(f"returned final position `{unparse(v)}` is neither the inversion of one observation of `{param}` nor a mean of such inversions", rt)
+        require(n_pos >= 1, "_determineFinalState never returns a position", fn)
+        r.ok(dfs.qualname + ":final-position", "the second Lambert position is the inversion of one radar observation of the current step (or a mean over exactly the inverted ones)", dfs.loc())
+
+    r.guard(dfs.qualname + ":final-position", final_position)
     cv = p.func(f"{LAM}._calculateVelocities")
 
     def three():
